@@ -126,7 +126,7 @@ type vE2EIncarnation struct {
 	qs sender.Sender[request.Request]
 }
 
-func vE2EStart(t *testing.T, cl *vE2EClient, capacity int64, consumers int, export func(id int) error) *vE2EIncarnation {
+func vE2EStart(t *testing.T, cl *vE2EClient, capacity int64, consumers int, batchMax int, export func(id int) error) *vE2EIncarnation {
 	storageID := component.MustNewID("verifstorage")
 	set := exporter.Settings{ID: component.MustNewID("verif"), TelemetrySettings: componenttest.NewNopTelemetrySettings()}
 	rcfg := configretry.NewDefaultBackOffConfig()
@@ -137,9 +137,19 @@ func vE2EStart(t *testing.T, cl *vE2EClient, capacity int64, consumers int, expo
 		return export(r.ItemsCount())
 	}))
 	qcfg := queuebatch.Config{Enabled: true, Sizer: request.SizerTypeRequests, QueueSize: capacity, NumConsumers: consumers, StorageID: &storageID}
+	if batchMax > 0 {
+		// sending_queue::batch with a max size: one stored request is exported as several parts whose errors are
+		// combined (multierr) before they reach persistentQueue.onDone
+		qcfg.Sizer = request.SizerTypeItems
+		qcfg.QueueSize = 100000
+		qcfg.Batch = &queuebatch.BatchConfig{FlushTimeout: time.Hour, MinSize: int64(batchMax), MaxSize: int64(batchMax)}
+	}
 	qs, err := NewQueueSender(queuebatch.Settings[request.Request]{
 		Signal: pipeline.SignalTraces, ID: set.ID, Telemetry: set.TelemetrySettings, Encoding: vE2EEnc{},
-		Sizers: map[request.SizerType]request.Sizer[request.Request]{request.SizerTypeRequests: request.RequestsSizer[request.Request]{}},
+		Sizers: map[request.SizerType]request.Sizer[request.Request]{
+			request.SizerTypeRequests: request.RequestsSizer[request.Request]{},
+			request.SizerTypeItems:    request.NewItemsSizer(),
+		},
 	}, qcfg, BatcherConfig{}, "", rs)
 	if err != nil {
 		t.Fatal(err)
@@ -164,6 +174,10 @@ func TestVerifC01E2E(t *testing.T) {
 	n := vN(40)
 	for _, c := range vCases(n) {
 		rnd := vRand(c)
+		if c%3 == 2 {
+			vE2ESplitCase(t, out, c)
+			continue
+		}
 		capacity := int64(1 + rnd.IntN(3))
 		consumers := 1 + rnd.IntN(2)
 		nreq := 1 + rnd.IntN(4)
@@ -184,7 +198,7 @@ func TestVerifC01E2E(t *testing.T) {
 		attempted := map[int]int{}
 		delivered := map[int]bool{}
 		rejected := map[int]bool{}
-		inc1 := vE2EStart(t, cl, capacity, consumers, func(id int) error {
+		inc1 := vE2EStart(t, cl, capacity, consumers, 0, func(id int) error {
 			mu.Lock()
 			defer mu.Unlock()
 			attempted[id]++
@@ -235,7 +249,7 @@ func TestVerifC01E2E(t *testing.T) {
 		mu.Unlock()
 		// next incarnation on the same storage: everything is delivered
 		delivered2 := map[int]bool{}
-		inc2 := vE2EStart(t, cl, capacity, consumers, func(id int) error {
+		inc2 := vE2EStart(t, cl, capacity, consumers, 0, func(id int) error {
 			mu.Lock()
 			defer mu.Unlock()
 			delivered2[id] = true
@@ -270,4 +284,79 @@ func TestVerifC01E2E(t *testing.T) {
 		out.Linef("end")
 		out.Flush()
 	}
+}
+
+// vE2ESplitCase: persistent queue + batching with a max size that splits every stored request into >= 2 parts, the
+// destination down when the exporter is shut down (every part ends with a shutdown-classified error, combined into
+// one multi-error), restart on the same storage: every item of every accepted request is delivered.
+func vE2ESplitCase(t *testing.T, out *vOut, c int) {
+	rnd := vRand(c)
+	batchMax := 2 + rnd.IntN(4)
+	nreq := 1 + rnd.IntN(3)
+	out.Linef("case %d mode=split batchmax=%d nreq=%d", c, batchMax, nreq)
+	cl := &vE2EClient{st: map[string][]byte{}}
+	var mu sync.Mutex
+	attempts := 0
+	inc1 := vE2EStart(t, cl, 0, 1, batchMax, func(int) error {
+		mu.Lock()
+		defer mu.Unlock()
+		attempts++
+		return errors.New("backend is down")
+	})
+	total := 0
+	for i := 0; i < nreq; i++ {
+		parts := 2 + rnd.IntN(3)
+		items := parts * batchMax
+		err := inc1.qs.Send(context.Background(), &requesttest.FakeRequest{Items: items})
+		out.Linef("op send items=%d parts=%d accepted=%d", items, parts, vB(err == nil))
+		if err == nil {
+			total += items
+		}
+	}
+	for w := 0; w < 200; w++ {
+		mu.Lock()
+		a := attempts
+		mu.Unlock()
+		if a > 0 {
+			break
+		}
+		time.Sleep(time.Millisecond)
+	}
+	inc1.shutdown()
+	storedItems := 0
+	for _, n := range cl.storedIDs() {
+		storedItems += n
+	}
+	out.Linef("tr after-shutdown stored-items=%d accepted-items=%d", storedItems, total)
+	if storedItems != total {
+		out.Linef("viol sig=C01/e2e/split-request-not-stored-after-shutdown stored=%d accepted=%d batchmax=%d", storedItems, total, batchMax)
+	}
+	delivered := 0
+	inc2 := vE2EStart(t, cl, 0, 1, batchMax, func(items int) error {
+		mu.Lock()
+		defer mu.Unlock()
+		delivered += items
+		return nil
+	})
+	for w := 0; w < 2000; w++ {
+		mu.Lock()
+		d := delivered
+		mu.Unlock()
+		if d >= total && len(cl.storedIDs()) == 0 {
+			break
+		}
+		time.Sleep(time.Millisecond)
+	}
+	inc2.shutdown()
+	mu.Lock()
+	out.Linef("tr second-incarnation delivered-items=%d", delivered)
+	if delivered < total {
+		out.Linef("viol sig=C01/e2e/split-request-never-delivered-after-restart delivered=%d accepted=%d batchmax=%d", delivered, total, batchMax)
+	}
+	mu.Unlock()
+	out.Linef("nt")
+	out.Linef("stat split_cases 1")
+	out.Linef("stat split_items_accepted %d", total)
+	out.Linef("end")
+	out.Flush()
 }
